@@ -586,6 +586,10 @@ def run_sim_check(prop, tier, seed, seconds_override=None):
     jobs = spec['jobs']
     if tier == 'thorough' and spec.get('thorough_profile'):
         jobs = [(e, f, spec['thorough_profile'] if p != 'scenario' else p) for (e, f, p) in jobs]
+    if tier == 'thorough':
+        # long variants of the history profiles: longer histories and larger containers on top of the quick-tier jobs
+        LONG = {'hist', 'fault', 'inline', 'reloc', 'swap2', 'limit', 'sethist', 'setsmall', 'setfault', 'setreloc', 'setinline'}
+        jobs = jobs + [(e, f, p + '_long') for (e, f, p) in jobs if p in LONG]
     if tier == 'thorough' and spec.get('thorough_profile_map'):
         jobs = [(e, f, spec['thorough_profile_map'].get(p, p)) for (e, f, p) in jobs]
     for (variant, seconds) in phases:
